@@ -98,6 +98,50 @@ def replay_case(fn, case, chk, record=True):
     return clause, worst
 
 
+def size_sweep(fn, chk, nmax):
+    """Every grain count 1..nmax into apply_gbs directly, judged by the pointwise law of Gbs.tla (LSelect: a grain
+    below chi / n takes the previous orientation OF THE SAME GRAIN, every other grain keeps the integrated one; LFloor:
+    floored grains get chi / n, then one common normalisation).  The volumes cycle through five weight classes, two of
+    them far below and three far above the threshold (no ties), so that sliding grains occur at every position of
+    the array, the last ones included."""
+    w = np.array([0.05, 1.0, 2.0, 0.1, 3.0])
+    bad = {}
+    worst = 0.0
+    for n in range(1, nmax + 1):
+        chi = (0.3, 0.5, 0.0)[n % 3]
+        f = w[(np.arange(n) + n) % 5]
+        f = f / f.sum()
+        cur, prev = _tagged(n), -_tagged(n)
+        try:
+            out = fn(cur.copy(), f.copy(), chi, prev.copy(), n)
+            o2, f2 = np.asarray(out[0]), np.asarray(out[1], dtype=float)
+        except Exception as ex:  # noqa: BLE001
+            bad.setdefault("raised-" + type(ex).__name__, []).append(n)
+            continue
+        if o2.shape != (n, 3, 3) or f2.shape != (n,) or not np.all(np.isfinite(f2)):
+            bad.setdefault("output-shape-or-non-finite", []).append(n)
+            continue
+        mask = f < chi / n
+        if np.abs(f - chi / n).min() < 1e-3 / n and chi > 0:
+            chk.skip("size sweep: a volume within 0.1 % of the threshold")
+            continue
+        want_o = np.where(mask[:, None, None], prev, cur)
+        if not np.array_equal(o2, want_o):
+            bad.setdefault("orientation-selection", []).append(n)
+        ff = np.where(mask, chi / n, f)
+        ff = ff / ff.sum()
+        dev = float(np.abs(f2 - ff).max() / ff.max())
+        worst = max(worst, dev)
+        if not dev <= 1e-12:     # rounding of two different summation orders over up to nmax terms
+            bad.setdefault("volume", []).append(n)
+        chk.count(("sweep", n))
+    chk.maximum("size_sweep_volume_rel_dev", worst)
+    chk.cov["size_sweep"] = dict(sizes=f"every grain count 1..{nmax}", chi="0.3 / 0.5 / 0 cycling", volume_classes=5)
+    for clause, sizes in sorted(bad.items()):
+        chk.violation(dict(level="size-sweep", clause=clause), f"apply_gbs: {clause} wrong at {len(sizes)} grain count(s), first {sizes[:8]}",
+                      dict(kind="size-sweep", sizes=sizes[:200], how="volumes w[(i + n) % 5] / sum with w = (0.05, 1, 2, 0.1, 3); chi = (0.3, 0.5, 0)[n % 3]; orientations _tagged(n), previous = -_tagged(n)"))
+
+
 def replayable(case):
     return (not case["tie"]) or case["exact"]
 
@@ -553,6 +597,7 @@ def main(tier):
         k = ("tie:" if c["tie"] else "") + ("floored" if any(c["mask"]) else "nothing-floored") + ("" if clause is None else ":" + clause)
         outcomes[k] = outcomes.get(k, 0) + 1
     chk.cov["replay_outcomes"] = outcomes
+    size_sweep(fn, chk, 20000 if quick else 60000)
     chk.sample(dict(kind="case", case=next(c for c in cases if c["fam"] == "dyadic" and c["tie"] and any(c["mask"]) and c["n"] == 4)))
     chk.sample(dict(kind="case", case=next(c for c in cases if c["fam"] == "grid" and c["n"] == 5 and sum(c["mask"]) == 3)))
     # replayer controls: perturbed expected values / flipped selection / a mutant must be flagged
